@@ -456,6 +456,19 @@ func (m *Manager) lock() {
 	// Zero the hashed passphrase.
 	zero.Bytea64(&m.hashedPrivPassphrase)
 
+	// Zero and drop the derived private keys cached by the scoped managers.
+	for _, manager := range m.scopedManagers {
+		cache := manager.privKeyCache
+		if cache == nil {
+			continue
+		}
+		cache.Range(func(path DerivationPath, cached *cachedKey) bool {
+			cached.key.Zero()
+			cache.Delete(path)
+			return true
+		})
+	}
+
 	// NOTE: m.cryptoKeyPub is intentionally not cleared here as the address
 	// manager needs to be able to continue to read and decrypt public data
 	// which uses a separate derived key from the database even when it is
